@@ -30,7 +30,12 @@ def gen_cases(tier, seed):
 def grid_spec(rng, g, t):
     """dense-ish grid over small shapes for the t-th request of this case"""
     kind = ["conv", "depthwise", "pool", "elementwise"][t % 4]
-    if kind == "elementwise":
+    if kind == "elementwise" and t % 8 == 3:
+        # a scalar operand plus a table activation on a large feature map (the form of a stand-alone table activation): on accelerators whose table sits in the
+        # ordinary banks the IFM partition must end below it
+        oh, ow, oc = [(28, 32, 8), (7, 64, 16), (14, 32, 16), (32, 28, 8), (56, 16, 8), (28, 16, 16), (25, 36, 8), (13, 64, 8)][int(rng.integers(0, 8))]
+        s = g.elementwise(force=dict(sub=str(rng.choice(["ADD", "MUL", "SUB", "MAX"])), oh=oh, ow=ow, oc=oc, dtype=str(rng.choice(["INT8", "UINT8"])), scalar=True, lut=True))
+    elif kind == "elementwise":
         s = g.elementwise()
     elif t % 3 == 0:
         # single-row outputs with wide, deep blocks: the accumulator rules for one-row operations (Conv1D: kernel height 1 only) decide the layout here
